@@ -267,7 +267,7 @@ Section F.
     destruct (edges_ok asrt st ws) eqn:EO; simpl in H; [|discriminate].
     destruct (fan_in ws); [discriminate|].
     destruct (memN kEND (targets ws)).
-    { destruct (value_for kEND ws); [discriminate|].
+    { cbv zeta in H.
       match type of H with (if ?c then _ else _) = _ => destruct c; discriminate end. }
     inversion H; subst tasks; clear H.
     apply in_map_iff in Hx. destruct Hx as [t [E Ht]]. subst x. simpl.
